@@ -28,7 +28,7 @@ MIN = {
     "quick": {"reported_set": 80, "ordered": 80, "chain_structure": 100, "chain_minors": 100,
               "chain_diplotype": 100, "empty_stage_error": 3, "majors_passed_on": 80},
     "thorough": {"reported_set": 2500, "ordered": 2500, "chain_structure": 3000, "chain_minors": 3000,
-                 "chain_diplotype": 3000, "empty_stage_error": 60, "majors_passed_on": 2500},
+                 "chain_diplotype": 3000, "empty_stage_error": 20, "majors_passed_on": 2500},
 }
 CASE_TIMEOUT = {"quick": 900, "thorough": 3000}
 PREC = 1e-2
